@@ -208,6 +208,17 @@ def case_lazycoords(W, cfg):
                                          keep_coords=keep, dask=("allowed" if lazy else "forbidden"), map_overlap=(lazy and chunked_core))
         compare(W, "lazycoords:ufunc:keep=%s" % keep, uf, (eager, grids[False][0]), (lz, grids[True][0]))
 
+        def ufk(x, g):
+            # parameters of the user function given through kwargs= reach it in every execution mode
+            lazy = hasattr(x.data, "dask")
+
+            def scaled(y, scale=1.0, offset=0.0):
+                return (y[..., 1:] - y[..., :-1]) * scale + offset
+            return g.apply_as_grid_ufunc(scaled, x, axis=[("X",)], signature="(X:center)->(X:left)", boundary_width={"X": (1, 0)},
+                                         keep_coords=keep, dask=("allowed" if (lazy and chunked_core) else ("parallelized" if lazy else "forbidden")),
+                                         map_overlap=(lazy and chunked_core), kwargs={"scale": 2.5, "offset": -1.0})
+        compare(W, "lazycoords:ufunc-with-kwargs:keep=%s" % keep, ufk, (eager, grids[False][0]), (lz, grids[True][0]))
+
 
 def case_multi(W, cfg):
     """several axes in one call: the refusal concerns only an axis that is itself chunked and involves inner/outer"""
